@@ -112,6 +112,7 @@ impl GenCfg {
             "gcgraph" => GenCfg { sparse: true, exec: true, max_funcs: 14, body_budget: 25, export_all: false, feats: Feats { relaxed: false, ..Feats::all() }, ..base },
             "names" => GenCfg { names: true, max_funcs: 8, body_budget: 30, ..base },
             "customs" => GenCfg { customs: true, names: true, producers: true, max_funcs: 4, body_budget: 15, ..base },
+            "manyfuncs" => GenCfg { max_funcs: 160, body_budget: 18, ..base },
             "tiny" => GenCfg { max_funcs: 3, body_budget: 12, ..base },
             n if n.starts_with("feature-") => GenCfg { feats: Feats::only(&n[8..]), ..base },
             _ => base,
